@@ -154,7 +154,16 @@ type Env struct {
 	KnownHits map[string]int
 }
 
-const histCap = 400
+var histCap = func() int {
+	if v := os.Getenv("VERIF_HIST"); v != "" {
+		n := 0
+		fmt.Sscan(v, &n)
+		if n > 0 {
+			return n
+		}
+	}
+	return 400
+}()
 
 func NewEnv(prop string, seed uint64, ch *Chooser) *Env {
 	return &Env{PropID: prop, Seed: seed, Ch: ch, streams: map[string]uint64{}, Stats: map[string]int{}, States: map[string]bool{}, Cfg: map[string]any{}, KnownHits: map[string]int{}}
@@ -332,3 +341,44 @@ func canonical(d string) string {
 
 // KnownFingerprints is loaded once per worker from known_findings.json (read-only at run time).
 var KnownFingerprints = map[string]bool{}
+
+// AdvanceNet is Advance for worlds with engine-to-engine links: a discrete-event loop in which the
+// driver itself delivers in-flight chunks at their due instants, ONE at a time with a settle after
+// each, so that a session never has two inbound frames (or a frame and its own queued output)
+// made ready by the same step. The sleep towards the next delivery is interrupted by any new write.
+func (e *Env) AdvanceNet(w interface {
+	NextDue() (time.Time, bool)
+	DeliverOne() bool
+}, sig <-chan struct{}, d time.Duration) {
+	e.advN++
+	z := (e.Seed+1)*0x9E3779B97F4A7C15 ^ e.advN*0xBF58476D1CE4E5B9
+	z ^= z >> 29
+	z *= 0x94D049BB133111EB
+	z ^= z >> 32
+	end := time.Now().Add(d + time.Duration(z%999983) + 1)
+	for guard := 0; guard < 1000000; guard++ {
+		synctest.Wait()
+		for w.DeliverOne() {
+			synctest.Wait()
+		}
+		now := time.Now()
+		if !now.Before(end) {
+			return
+		}
+		target := end
+		if t, ok := w.NextDue(); ok && t.Before(target) {
+			target = t
+		}
+		select {
+		case <-sig:
+		default:
+		}
+		tm := time.NewTimer(target.Sub(now))
+		select {
+		case <-tm.C:
+		case <-sig:
+			tm.Stop()
+		}
+	}
+	panic(harnessError{"AdvanceNet did not terminate"})
+}
